@@ -121,62 +121,84 @@ def _same_failure(prop: str, mach: Any, tape: Sequence[int], seed: int, tier: st
     return None
 
 
+def _shrink_eval(args):
+    prop, cand, seed, tier, kf, clause = args
+    r = _same_failure(prop, _W["machine"], cand, seed, tier, kf, clause)
+    return list(r.tape) if r is not None else None
+
+
 def shrink(prop: str, mach: Any, tape: list[int], seed: int, tier: str, kf: list, clause: str,
-           budget_s: float) -> list[int]:
-    """Delta-debug the choice tape: drop blocks, zero blocks, lower values."""
+           budget_s: float, workers: int = 8) -> list[int]:
+    """Delta-debug the choice tape (drop blocks, zero blocks, lower values); candidates are tried in parallel.
+
+    A candidate is kept iff the same property fails with the same oracle clause; the tape a run actually
+    consumed replaces the candidate, so unused tail choices disappear by themselves."""
     t0 = time.time()
-    best = list(tape)
-    r = _same_failure(prop, mach, best, seed, tier, kf, clause)
+    r = _same_failure(prop, mach, list(tape), seed, tier, kf, clause)
     if r is None:
-        return best
-    best = list(r.tape)  # the tape actually consumed
+        return list(tape)
+    best = list(r.tape)
+    _W["machine"] = mach
 
-    def attempt(cand: list[int]) -> bool:
-        nonlocal best
-        if cand == best or time.time() - t0 > budget_s:
-            return False
-        rr = _same_failure(prop, mach, cand, seed, tier, kf, clause)
-        if rr is not None:
-            used = list(rr.tape)
-            if len(used) < len(best) or (len(used) == len(best) and used < best) or sum(used) < sum(best):
-                best = used
-                return True
-        return False
+    def better(used: list[int]) -> bool:
+        return len(used) < len(best) or (len(used) == len(best) and sum(used) < sum(best))
 
-    improved = True
-    while improved and time.time() - t0 < budget_s:
-        improved = False
-        # drop blocks
-        size = max(1, len(best) // 2)
-        while size >= 1 and time.time() - t0 < budget_s:
-            i = 0
-            while i < len(best) and time.time() - t0 < budget_s:
-                if attempt(best[:i] + best[i + size:]):
+    ctx = multiprocessing.get_context("fork")
+    with ProcessPoolExecutor(max_workers=workers, mp_context=ctx) as ex:
+        def first_success(cands: list[list[int]]):
+            """Index and consumed tape of the first candidate (in list order) that still fails, else None."""
+            for start in range(0, len(cands), workers * 2):
+                if time.time() - t0 > budget_s:
+                    return None
+                chunk = cands[start:start + workers * 2]
+                res = list(ex.map(_shrink_eval, [(prop, c, seed, tier, kf, clause) for c in chunk]))
+                for k, used in enumerate(res):
+                    if used is not None and better(used):
+                        return start + k, used
+            return None
+
+        improved = True
+        while improved and time.time() - t0 < budget_s:
+            improved = False
+            size = max(1, len(best) // 2)
+            while size >= 1 and time.time() - t0 < budget_s:
+                cands = [best[:i] + best[i + size:] for i in range(0, len(best), size)]
+                cands = [c for c in cands if c != best]
+                hit = first_success(cands)
+                if hit is not None:
+                    best = hit[1]
+                    improved = True
+                    size = min(size, max(1, len(best) // 2))
+                else:
+                    size //= 2
+            size = max(1, len(best) // 2)
+            while size >= 1 and time.time() - t0 < budget_s:
+                cands = [best[:i] + [0] * len(best[i:i + size]) + best[i + size:]
+                         for i in range(0, len(best), size) if any(best[i:i + size])]
+                hit = first_success(cands)
+                if hit is not None:
+                    best = hit[1]
                     improved = True
                 else:
-                    i += size
-            size //= 2
-        # truncate tail
-        for cut in (len(best) // 2, len(best) * 3 // 4, len(best) - 1):
-            if 0 < cut < len(best) and attempt(best[:cut]):
+                    size //= 2
+            cands = []
+            for i, v in enumerate(best):
+                if v > 0:
+                    for cv in sorted({0, v // 2, v - 1}):
+                        if cv < v:
+                            cands.append(best[:i] + [cv] + best[i + 1:])
+            while cands and time.time() - t0 < budget_s:
+                hit = first_success(cands)
+                if hit is None:
+                    break
+                best = hit[1]
                 improved = True
-        # zero blocks
-        size = max(1, len(best) // 2)
-        while size >= 1 and time.time() - t0 < budget_s:
-            for i in range(0, len(best), size):
-                if any(best[i:i + size]) and attempt(best[:i] + [0] * len(best[i:i + size]) + best[i + size:]):
-                    improved = True
-            size //= 2
-        # lower single values
-        for i in range(len(best)):
-            if time.time() - t0 > budget_s:
-                break
-            v = best[i] if i < len(best) else 0
-            if v > 0:
-                for cand_v in (0, v // 2, v - 1):
-                    if cand_v < v and i < len(best) and attempt(best[:i] + [cand_v] + best[i + 1:]):
-                        improved = True
-                        break
+                cands = []
+                for i, v in enumerate(best):
+                    if v > 0:
+                        for cv in sorted({0, v // 2}):
+                            if cv < v:
+                                cands.append(best[:i] + [cv] + best[i + 1:])
     return best
 
 
